@@ -1036,6 +1036,34 @@ W18 = dict(copy.deepcopy(W3), id="W18-sources-in-directories-named-tilde-and-dol
 W19 = dict(copy.deepcopy(W4), id="W19-builtin-scalar-names-configured")
 W19["config"] = dict(W19["config"], scalars={"ID": {"type": "str"}, "Float": {"type": "float"}, "Int": {"type": "int"}})
 
+# the target package path is left to its documented default (the working directory)
+W21 = dict(copy.deepcopy(W3), id="W21-default-target-package-path", default_target_path=True)
+
+# schema served by the (simulated) remote endpoint; it has deprecated arguments / input fields and a repeatable directive, i.e.
+# everything a richer introspection query would report and the documented one does not
+_W22_SDL = """
+directive @tag(name: String!) repeatable on FIELD_DEFINITION | OBJECT
+
+type Query {
+  items(first: Int, legacyFilter: String @deprecated(reason: "use filter"), filter: ItemFilter): [Item!]!
+  item(id: ID!): Item
+}
+
+type Item @tag(name: "a") @tag(name: "b") {
+  id: ID!
+  name: String!
+  old: String @deprecated
+}
+
+input ItemFilter {
+  name: String
+  legacyName: String @deprecated(reason: "use name")
+  limit: Int = 10
+}
+"""
+W22 = [dict(_world("W22-remote-schema-client", _W22_SDL, "query Items($first: Int, $filter: ItemFilter) {\n  items(first: $first, filter: $filter) {\n    id\n    name\n  }\n}"), remote=True),
+       dict(_world("W22b-remote-schema-graphqlschema", _W22_SDL, "", {"target_file_path": "schema_types.py"}, strategy="graphqlschema"), remote=True)]
+
 # projects that exercise process-level machinery (plugins, configured scalars, custom operations, the other strategy): used as the
 # "earlier generation in the same interpreter" of other projects
 STATEFUL_NEIGHBOURS = ["W19-builtin-scalar-names-configured", "W5-upload-scalars-mixin", "W10-plugins-5", "W9-custom-operations",
@@ -1043,7 +1071,7 @@ STATEFUL_NEIGHBOURS = ["W19-builtin-scalar-names-configured", "W5-upload-scalars
 
 
 def all_worlds() -> List[dict]:
-    return [W1, W2, W2b, W3, W4, W5, W7, W8, W8s, W9, W9k, W15] + W10 + W11 + W12 + W13 + W14 + W16 + W17 + [W18, W19]
+    return [W1, W2, W2b, W3, W4, W5, W7, W8, W8s, W9, W9k, W15] + W10 + W11 + W12 + W13 + W14 + W16 + W17 + [W18, W19, W21] + W22
 
 
 def by_id(wid: str) -> dict:
